@@ -88,7 +88,8 @@ struct TB { char s[8]; };
 static TA g_A[4] = { { { 1, 2 } }, { { 1, 2 } }, { { 3, 4 } }, { { -1, 0 } } };
 static TB g_B[4] = { { "abc" }, { "abc" }, { "abd" }, { "" } };
 enum { OT_A, OT_B, OT_U, OT_N };
-static const char* OT_NAME[] = { "TypeA", "TypeB", "TypeU" };   // TypeU never gets a comparator or copier
+// custom type names that BEGIN with a built-in type name: a prefix match in a type dispatch would take the wrong branch
+static const char* OT_NAME[] = { "TypeA", "double_t", "int32_t" };   // the third never gets a comparator or copier
 static const void* obj_of(int ot, int oi) { return ot == OT_B ? (const void*) &g_B[oi & 3] : (const void*) &g_A[oi & 3]; }
 static std::string obj_name(const void* p) {
     for (int i = 0; i < 4; i++) { if (p == &g_A[i]) return "A#" + std::to_string(i); if (p == &g_B[i]) return "B#" + std::to_string(i); }
@@ -845,7 +846,7 @@ static bool compare_execs(vf::Ctx& c, const Scenario& sc, const Exec& cpp, const
         };
         std::string tp = token_at(cpp.text, i), tc = token_at(cc.text, i);
         auto is_type_word = [](const std::string& t) {
-            static const char* W[] = { "bool", "int", "unsigned", "long", "double", "const", "char*", "void*", "void", "(*)()", "TypeA", "TypeB", "TypeU" };
+            static const char* W[] = { "bool", "int", "unsigned", "long", "double", "const", "char*", "void*", "void", "(*)()", "TypeA", "double_t", "int32_t" };
             for (const char* w : W) if (t == w) return true;
             return false;
         };
